@@ -15,7 +15,8 @@ CONSTANTS Depth,     \* number of calls per history
           MaxUses,   \* variables a generated statement may read
           RawToo,    \* also generate unguarded statements / removals
           SeedIds,   \* which seed test cases objects start from
-          Subjects   \* objects the calls are made on
+          Subjects,  \* objects the calls are made on
+          Pick       \* TRUE (simulation): one random argument per kind of call instead of all
 
 VARIABLES obj, hist, init
 vars == <<obj, hist, init>>
@@ -54,6 +55,10 @@ BadStmts(t) ==
 AsStmt(s) == Stmt(s.bv, s.uses, s.ty)
 Prep(t, s) == IF s.fresh THEN AfterNextVar(t) ELSE t
 
+\* -simulate computes every successor of a state before it picks one: with Pick the argument of
+\* each kind of call is drawn first (TLC's RandomElement, seeded by -seed)
+Sel(X) == IF Pick /\ X # {} THEN {RandomElement(X)} ELSE X
+
 Do(o, t2, a) == /\ obj' = [obj EXCEPT ![o] = t2]
                 /\ hist' = Append(hist, a)
                 /\ UNCHANGED init
@@ -63,24 +68,25 @@ Step(o) ==
       n == Len(t.st)
       o2 == 3 - o
   IN
-  \/ \E s \in GoodStmts(t, n) \cup BadStmts(t) :
+  \/ \E s \in Sel(GoodStmts(t, n) \cup BadStmts(t)) :
         Do(o, Add(Prep(t, s), AsStmt(s)), Act("add", o, 0, 0, {}, s, 0))
-  \/ \E i \in 0..(n + 1) : \E s \in GoodStmts(t, Min(i, n)) \cup BadStmts(t) :
+  \/ \E i \in Sel(0..(n + 1)) : \E s \in Sel(GoodStmts(t, Min(i, n)) \cup BadStmts(t)) :
         Do(o, Insert(Prep(t, s), i, AsStmt(s)), Act("insert", o, 0, i, {}, s, 0))
-  \/ \E i \in 0..(n - 1) : \E s \in GoodStmts(t, i) \cup BadStmts(t)
-                                   \cup {[bv |-> t.st[i + 1].bv, uses |-> U, ty |-> ty, fresh |-> FALSE] :
-                                           U \in Subsets(BoundBefore(t.st, i + 1)), ty \in TyOpt} :
+  \/ \E i \in Sel(0..(n - 1)) :
+      \E s \in Sel(GoodStmts(t, i) \cup BadStmts(t)
+                   \cup {[bv |-> t.st[i + 1].bv, uses |-> U, ty |-> ty, fresh |-> FALSE] :
+                           U \in Subsets(BoundBefore(t.st, i + 1)), ty \in TyOpt}) :
         Do(o, Replace(Prep(t, s), i, AsStmt(s)), Act("replace", o, 0, i, {}, s, 0))
-  \/ \E i \in 0..(n - 1) :
+  \/ \E i \in Sel(0..(n - 1)) :
         /\ (RawToo \/ SafeRemove(t, i))
         /\ Do(o, Remove(t, i), Act("remove", o, 0, i, {}, NoStmt, 0))
-  \/ \E R \in SUBSET (0..(n - 1)) :
+  \/ \E R \in Sel(SUBSET (0..(n - 1))) :
         /\ (RawToo \/ SafeRemoveBatch(t, R))
         /\ Do(o, RemoveBatch(t, R), Act("remove_batch", o, 0, 0, R, NoStmt, 0))
-  \/ \E p \in (-1)..n : Do(o, Chop(t, p), Act("chop", o, 0, p, {}, NoStmt, 0))
-  \/ \E i \in 0..(n - 1) : Do(o, RemoveWithFwd(t, i), Act("remove_fwd", o, 0, i, {}, NoStmt, 0))
-  \/ \E i \in 0..(n - 1) : Do(o, RemoveWithFwd(t, i), Act("delete_gracefully", o, 0, i, {}, NoStmt, 0))
-  \/ \E other \in Objs : \E start \in 0..Len(obj[other].st), seed \in 1..2 :
+  \/ \E p \in Sel((-1)..n) : Do(o, Chop(t, p), Act("chop", o, 0, p, {}, NoStmt, 0))
+  \/ \E i \in Sel(0..(n - 1)) : Do(o, RemoveWithFwd(t, i), Act("remove_fwd", o, 0, i, {}, NoStmt, 0))
+  \/ \E i \in Sel(0..(n - 1)) : Do(o, RemoveWithFwd(t, i), Act("delete_gracefully", o, 0, i, {}, NoStmt, 0))
+  \/ \E other \in Objs : \E start \in Sel(0..Len(obj[other].st)), seed \in Sel(1..2) :
         Do(o, AppendFrom(t, obj[other], start, <<seed, seed>>),
            Act("append_from", o, other, start, {}, NoStmt, seed))
   \/ Do(o, RemoveUnused(t), Act("remove_unused", o, 0, 0, {}, NoStmt, 0))
